@@ -207,3 +207,250 @@ def _build_index(vc):
     vc.ensure("other-channels'-indexes-untouched",
               (not ncached) or rd._segment_channel_offsets["/'g'/'Q'"][1] is old)
     vc.ensure("reads-nothing", True)
+
+
+# ---------------------------------------------------------------------------- _update_object_metadata, any number of objects
+#
+# The loop over segment.ordered_objects is cut by an invariant; the segment's object list is a sequence of symbolic
+# length whose element k is a generic object, the reader's maps (object_metadata, _prev_segment_objects) are of
+# any size: a lookup freely finds earlier metadata for the path or not, stores are recorded.  Iteration k must
+# remember exactly object k as the most recent one for its path, add exactly the segment's value count for that
+# object to the channel length, record its data type, and reject a change of data type.
+
+class TypeCode(object):
+    """a TDMS data type known by a symbolic code"""
+
+    def __init__(self, code):
+        self.code = code
+
+    def __eq__(self, o):
+        if isinstance(o, TypeCode):
+            return self.code == o.code
+        return False
+
+    def __ne__(self, o):
+        return sym.sym_not(self.__eq__(o))
+
+    def __hash__(self):
+        return id(self)
+
+
+SC_A, SC_B = Tok("scalers-A"), Tok("scalers-B")
+
+
+class ObjSeq(object):
+    _absent = ()
+
+    def __init__(self, vc, n, daqmx):
+        self.vc, self.n, self.daqmx = vc, n, daqmx
+        self.elements = []
+
+    def element(self, j):
+        for (j0, o, snap) in self.elements:
+            if j0 is j:
+                return o
+        vc = self.vc
+        tag = sym.fresh_name("so")
+        typ = TypeCode(vc.int(tag + "_type", lo=0)) if vc.interp.truth(vc.bool(tag + "_typed")) else None
+        o = mk_so(vc, fresh_str(vc.st, tag + "_path"), tag, typ)
+        if self.daqmx:
+            o = vc.new("daqmx.DaqmxSegmentObject", path=o.path, has_data=o.has_data, number_values=o.number_values,
+                       data_size=o.data_size, data_type=typ, daqmx_metadata=None,
+                       scaler_data_types=(SC_A if vc.interp.truth(vc.bool(tag + "_scA")) else SC_B))
+        self.elements.append((j, o, (o.path, o.has_data, o.number_values, o.data_size, o.data_type)))
+        return o
+
+    def as_symseq(self):
+        return SymSeq(self.n, self.element, "segment-objects")
+
+
+class MetaMap(object):
+    """reader.object_metadata of any size"""
+    _absent = ()
+
+    def __init__(self, vc, daqmx):
+        self.vc, self.daqmx = vc, daqmx
+        self.lookups = []      # (path, found, metadata or None, state before or None)
+        self.stores = []
+
+    def __getitem__(self, path):
+        from pyvc.interp import ProgExc
+        from collections import OrderedDict
+        vc = self.vc
+        for (p, found, m, _) in self.lookups:
+            if p is path:
+                if found:
+                    return m
+                raise ProgExc(KeyError, "path")
+        for (p, m) in self.stores:
+            if p is path:
+                return m
+        tag = sym.fresh_name("meta")
+        if vc.interp.truth(vc.bool(tag + "_known")):
+            typ = TypeCode(vc.int(tag + "_type", lo=0)) if vc.interp.truth(vc.bool(tag + "_typed")) else None
+            sc = None
+            if self.daqmx:
+                sc = SC_A if vc.interp.truth(vc.bool(tag + "_scA")) else None
+            props = OrderedDict()
+            m = vc.new("reader.ObjectMetadata", properties=props, data_type=typ, scaler_data_types=sc,
+                       num_values=vc.int(tag + "_n", lo=0))
+            self.lookups.append((path, True, m, (m.num_values, typ, sc, props)))
+            return m
+        self.lookups.append((path, False, None, None))
+        raise ProgExc(KeyError, "path")
+
+    def __setitem__(self, path, m):
+        self.stores.append((path, m))
+
+
+class Recorder(object):
+    _absent = ()
+
+    def __init__(self):
+        self.stores = []
+
+    def __setitem__(self, k, v):
+        self.stores.append((k, v))
+
+
+class Override(object):
+    """final_chunk_lengths_override: path -> values in the final chunk (absent paths count 0)"""
+    _absent = ()
+
+    def __init__(self, vc):
+        self.vc = vc
+        self.gets = []
+
+    def get(self, path, default=None):
+        for (p, d, v) in self.gets:
+            if p is path:
+                return v
+        v = self.vc.int(sym.fresh_name("final"), lo=0)
+        self.gets.append((path, default, v))
+        return v
+
+
+def _setup_uom_all(interp):
+    same_scalers = lambda a, b: a is b
+
+    def on_iter(env, k, st):
+        g = st.ghost["uom"]
+        g["metamap"].lookups[:] = []
+        g["metamap"].stores[:] = []
+        g["prevmem"].stores[:] = []
+        st.ghost["iter"] = dict(k=k, obj=env.vars["segment_object"])
+
+    def inv(env, k, st):
+        g = st.ghost["uom"]
+        rd = env.vars["self"]
+        out = [("reader-keeps-its-maps", rd.object_metadata is g["metamap"]
+                and rd._prev_segment_objects is g["prevmem"])]
+        it = st.ghost.get("iter")
+        if it is not None and not it.get("checked"):
+            it["checked"] = True
+            out.extend(_post(g, it, st))
+        return out
+
+    def _post(g, it, st):
+        res = []
+        o = it["obj"]
+        mm, pm, seg = g["metamap"], g["prevmem"], g["segment"]
+        snap = [s for (j0, oo, s) in g["objs"].elements if oo is o]
+        res.append(("iterates-over-the-segment's-objects", len(snap) == 1))
+        if len(snap) != 1:
+            return res
+        (path, has, nv, size, typ) = snap[0]
+        res.append(("most-recent-object-for-the-path-is-this-segment's-object",
+                    len(pm.stores) == 1 and pm.stores[0][0] is path and pm.stores[0][1] is o))
+        res.append(("metadata-looked-up-once-under-the-object's-path",
+                    len(mm.lookups) == 1 and mm.lookups[0][0] is path))
+        if len(mm.lookups) != 1:
+            return res
+        (_, found, m, before) = mm.lookups[0]
+        ov = seg.final_chunk_lengths_override
+        fin = None
+        if ov is not None:
+            mine = [v for (p, d, v) in ov.gets if p is path]
+            res.append(("truncated-final-chunk/override-asked-for-this-path-default-0",
+                        (not interp.truth(has)) or (len(mine) == 1 and [d for (p, d, v) in ov.gets if p is path][0] == 0)))
+            fin = mine[0] if mine else 0
+        add = A.segment_values(has, nv, seg.num_chunks, fin)
+        if found:
+            (n0, t0, sc0, props0) = before
+            res.append(("known-object/no-new-metadata-entry", len(mm.stores) == 0))
+            res.append(("known-object/length-accumulates", m.num_values == n0 + add))
+            res.append(("known-object/properties-untouched", m.properties is props0 and len(props0) == 0))
+        else:
+            res.append(("new-object/one-metadata-entry-under-its-path",
+                        len(mm.stores) == 1 and mm.stores[0][0] is path))
+            if len(mm.stores) != 1:
+                return res
+            m = mm.stores[0][1]
+            res.append(("new-object/length-is-this-segment's-count", m.num_values == add))
+            res.append(("new-object/no-properties-yet", len(m.properties) == 0))
+        if found and before[1] is not None:
+            res.append(("change-of-data-type-is-rejected", before[1] == typ if typ is not None else False))
+        res.append(("data-type-recorded", (m.data_type is None) if typ is None else
+                    (isinstance(m.data_type, TypeCode) and m.data_type.code == typ.code)))
+        if g["daqmx"]:
+            res.append(("scaler-types-recorded", m.scaler_data_types is o.scaler_data_types))
+        res.append(("frame/segment-object-unchanged",
+                    And(o.has_data == has, o.number_values == nv, o.data_size == size)
+                    and o.data_type is typ and o.path is path))
+        return res
+
+    interp.loop_specs[("nptdms.reader:TdmsReader._update_object_metadata", 0)] = LoopSpec(
+        inv, havoc={"__locals__": ("path", "object_metadata")}, on_iter=on_iter, name="segment-objects")
+    interp._uom_same_scalers = same_scalers
+
+
+@harness("update_object_metadata_all_objects", ["reader.TdmsReader._update_object_metadata",
+                                                "reader.TdmsReader._get_or_create_object",
+                                                "reader._update_object_data_type",
+                                                "reader._update_object_scaler_data_types",
+                                                "reader._number_of_segment_values",
+                                                "reader.ObjectMetadata.__init__"],
+         ["C02", "C01", "C04", "C09"], variants=[("plain", (False, False)), ("truncated-final-chunk", (False, True)),
+                                          ("daqmx", (True, False))],
+         setup=_setup_uom_all, level="proof",
+         note="ANY number of objects in the segment (loop invariant), reader maps of any size; iteration k remembers "
+              "object k as the most recent for its path, adds the segment's value count, records the type, "
+              "rejects a change of data type (or of DAQmx scaler types)")
+def _uom_all(vc):
+    daqmx, truncated = vc.variant
+    st = vc.st
+    n = vc.int("objects", lo=0)
+    objs = ObjSeq(vc, n, daqmx)
+    nc = vc.int("num_chunks", lo=0)
+    ov = None
+    if truncated:
+        ov = Override(vc)
+        vc.assume(nc >= 1)
+    seg = vc.new("tdms_segment.TdmsSegment", num_chunks=nc, final_chunk_lengths_override=ov, ordered_objects=objs)
+    rd = mk_reader(vc, 100)
+    mm, pm = MetaMap(vc, daqmx), Recorder()
+    rd.object_metadata = mm
+    rd._prev_segment_objects = pm
+    st.ghost["uom"] = dict(metamap=mm, prevmem=pm, segment=seg, objs=objs, daqmx=daqmx)
+    vc.cover("a-segment-with-many-objects-is-within-the-precondition", n >= 1000)
+    out = vc.call_method(rd, "_update_object_metadata", seg)
+    if out.kind == "exc":
+        # the only rejection specified: the object's metadata has a data type (scaler types) and this segment's
+        # object has another one
+        it = st.ghost.get("iter")
+        ok = False
+        if out.raised(ValueError) and it is not None and len(mm.lookups) == 1 and mm.lookups[0][1]:
+            (_, _, m, before) = mm.lookups[0]
+            (n0, t0, sc0, props0) = before
+            o = it["obj"]
+            type_changed = t0 is not None and vc.interp.truth(t0 != o.data_type)
+            sc_changed = False
+            if daqmx and sc0 is not None:
+                sc_changed = not vc.interp._uom_same_scalers(sc0, o.scaler_data_types)
+            ok = type_changed or sc_changed
+            if type_changed:
+                vc.ensure("rejection/type-on-record-unchanged", m.data_type is t0)
+        vc.ensure("only-a-change-of-data-type-is-rejected", ok)
+        return
+    vc.ensure("segment-keeps-its-object-list", seg.ordered_objects is objs, kind="frame")
+    vc.ensure("reader-keeps-its-maps", rd.object_metadata is mm and rd._prev_segment_objects is pm, kind="frame")
